@@ -10,7 +10,7 @@ import (
 func verifNoPanicDecode(c Codec, n int) {
 	nd.AllocBound(n + 2)
 	b := nd.Bytes("b", nd.Len("len", 0, n))
-	switch nd.Choice("dest", 9) {
+	switch nd.Choice("dest", 10) {
 	case 0:
 		var d interface{}
 		c.Decode(b, &d, verifVersion)
@@ -37,6 +37,9 @@ func verifNoPanicDecode(c Codec, n int) {
 		c.Decode(b, &d, verifVersion)
 	case 8:
 		var d *int32 // nil destination
+		c.Decode(b, d, verifVersion)
+	case 9:
+		d := new(big.Float) // SetFloat64 panics on NaN (its documented contract, carried by the engine's stub)
 		c.Decode(b, d, verifVersion)
 	}
 	nd.Assert(true, "returned")
